@@ -2663,6 +2663,73 @@ def flatten_keyed_tables(func):
 
 # ----------------------------------------------------------------------------------------------------------- copy coalescing
 
+def join_piece_tables(func):
+    """Change of representation put back: a table of texts kept as a table of PIECE LISTS that are joined once at the end
+
+        T = [[c] for _ in range(N)]   ...   T[i].append(t)   ...   X = ["".join(ps) for ps in T]
+
+    is the table of strings `T = [c] * N` with `T[i] += t` (text concatenation), X being T itself.  Applied only when T is bound once
+    at the top level, EVERY other use of T is a whole-statement `T[<index>].append(<one piece>)` before the join or the join itself (a
+    top-level statement, the empty separator), and T is not used after the join."""
+    nbind = {}
+    for n in ast.walk(func):
+        if isinstance(n, ast.Name) and isinstance(n.ctx, (ast.Store, ast.Del)):
+            nbind[n.id] = nbind.get(n.id, 0) + 1
+        elif isinstance(n, ast.arg):
+            nbind[n.arg] = nbind.get(n.arg, 0) + 2
+    for ii, init in enumerate(list(func.body)):
+        if not (isinstance(init, ast.Assign) and len(init.targets) == 1 and isinstance(init.targets[0], ast.Name) and nbind.get(init.targets[0].id) == 1
+                and isinstance(init.value, ast.ListComp) and len(init.value.generators) == 1 and not init.value.generators[0].ifs
+                and isinstance(init.value.elt, ast.List) and len(init.value.elt.elts) == 1 and not isinstance(init.value.elt.elts[0], ast.Starred)):
+            continue
+        T = init.targets[0].id
+        g = init.value.generators[0]
+        if not (isinstance(g.iter, ast.Call) and isinstance(g.iter.func, ast.Name) and g.iter.func.id == "range" and len(g.iter.args) == 1 and not g.iter.keywords
+                and isinstance(g.target, ast.Name) and g.target.id not in _loaded(init.value.elt) and _pure(init.value.elt.elts[0]) and _pure(g.iter.args[0])):
+            continue
+        # the join
+        ji = None
+        for k in range(ii + 1, len(func.body)):
+            st = func.body[k]
+            if isinstance(st, ast.Assign) and len(st.targets) == 1 and isinstance(st.targets[0], ast.Name) and isinstance(st.value, ast.ListComp) \
+                    and len(st.value.generators) == 1 and not st.value.generators[0].ifs and isinstance(st.value.generators[0].iter, ast.Name) \
+                    and st.value.generators[0].iter.id == T and isinstance(st.value.generators[0].target, ast.Name):
+                e = st.value.elt
+                if isinstance(e, ast.Call) and isinstance(e.func, ast.Attribute) and e.func.attr == "join" and isinstance(e.func.value, ast.Constant) \
+                        and e.func.value.value == "" and len(e.args) == 1 and not e.keywords and isinstance(e.args[0], ast.Name) \
+                        and e.args[0].id == st.value.generators[0].target.id:
+                    ji = k
+                    break
+        if ji is None:
+            continue
+        uses = [n for b in func.body for n in ast.walk(b) if isinstance(n, ast.Name) and n.id == T]
+        appends = []
+        for b in func.body[ii + 1:ji]:
+            for n in ast.walk(b):
+                if isinstance(n, ast.Expr) and isinstance(n.value, ast.Call) and isinstance(n.value.func, ast.Attribute) and n.value.func.attr == "append" \
+                        and isinstance(n.value.func.value, ast.Subscript) and isinstance(n.value.func.value.value, ast.Name) and n.value.func.value.value.id == T \
+                        and len(n.value.args) == 1 and not n.value.keywords and not isinstance(n.value.args[0], ast.Starred) \
+                        and T not in _loaded(n.value.func.value.slice) and T not in _loaded(n.value.args[0]):
+                    appends.append(n)
+        if len(uses) != len(appends) + 2:
+            continue
+        ids = {id(n): n for n in appends}
+
+        class Tr(ast.NodeTransformer):
+            def visit_Expr(self, n):
+                if id(n) in ids:
+                    sub = n.value.func.value
+                    sub.ctx = ast.Store()
+                    return ast.copy_location(ast.AugAssign(target=sub, op=ast.Add(), value=n.value.args[0]), n)
+                return n
+        for k in range(ii + 1, ji):
+            func.body[k] = Tr().visit(func.body[k])
+        init.value = ast.copy_location(ast.BinOp(left=ast.List(elts=[init.value.elt.elts[0]], ctx=ast.Load()), op=ast.Mult(), right=g.iter.args[0]), init.value)
+        func.body[ji].value = ast.copy_location(ast.Name(id=T, ctx=ast.Load()), func.body[ji].value)
+        ast.fix_missing_locations(func)
+    return func
+
+
 def coalesce_copies(func):
     """Copy coalescing at the top level of a function: `A = x` / `A, B = x, y` where the local x is not used afterwards and the name A
     does not occur before, is the same program with x spelled A from the start (the copy statement disappears).  This is what is
